@@ -672,6 +672,11 @@ class SyncObj(object):
                     logger.error(
                         'request to switch to unsupported code version (self version: %d, requested version: %d)' %
                         (self.__selfCodeVersion, e.ver))
+                    # Stop here: the entry stays unapplied (and keeps its subscribers),
+                    # nothing after it may be applied before it.
+                    if subscribers:
+                        self.__commandsWaitingCommit[entry[1]] = subscribers
+                    break
 
             if not self.__conf.appendEntriesUseBatch:
                 needSendAppendEntries = True
